@@ -43,6 +43,18 @@ pub fn k_replay_session_reuse() {
     let r2 = calc.execute_session(&s);
     assert!(r2.status);
     assert!(r2.lines.len() == 2);
+    // the same text given again is a new evaluation of all of its lines
+    s.set_text("4\n5".to_string());
+    let r3 = calc.execute_session(&s);
+    assert!(r3.status && r3.lines.len() == 2);
+    let out = |r: &crate::smartcalc::ExecuteResult, i: usize| match &r.lines[i] { Some(l) => match &l.result { Ok(x) => x.output.clone(), Err(e) => e.clone() }, None => String::new() };
+    assert!(out(&r3, 0) == "4" && out(&r3, 1) == "5");
+    // and so is the same text after a text with the same number of lines
+    s.set_text("6\n7".to_string());
+    let _ = calc.execute_session(&s);
+    s.set_text("6\n7".to_string());
+    let r4 = calc.execute_session(&s);
+    assert!(r4.lines.len() == 2 && out(&r4, 1) == "7");
 }
 
 /// native witness for the rule-application specs: an API rule that declines its first call and accepts later ones;
@@ -368,3 +380,32 @@ pub fn k_replay_unit_chain() {
 }
 #[cfg(kani)]
 pub fn k_replay_unit_chain() {}
+
+/// a rule whose pattern names an expected text natively: (three letters of the expected text, three letters of the
+/// line's word): the rule fires exactly when the two are equal ignoring case
+#[cfg(not(kani))]
+pub fn k_replay_text_field() {
+    use crate::{RuleTrait, SmartCalc, SmartCalcConfig};
+    struct Coin;
+    impl RuleTrait for Coin {
+        fn name(&self) -> String { "coin".to_string() }
+        fn call(&self, _: &SmartCalcConfig, fields: &alloc::collections::BTreeMap<String, TokenType>) -> Option<TokenType> {
+            match fields.get("count") { Some(TokenType::Number(n, _)) => Some(TokenType::Number(n * 1000.0, NumberType::Decimal)), _ => None }
+        }
+    }
+    let mut e = String::new(); let mut t = String::new();
+    let mut i = 0;
+    while i < 3 { let c: u8 = vany(); vassume(b"qxzjQXZJ".contains(&c)); e.push(c as char); i += 1; }
+    i = 0;
+    while i < 3 { let c: u8 = vany(); vassume(b"qxzjQXZJ".contains(&c)); t.push(c as char); i += 1; }
+    let mut calc = SmartCalc::default();
+    calc.set_decimal_seperator(".".to_string());
+    calc.set_thousand_separator(",".to_string());
+    assert!(calc.add_rule("en".to_string(), alloc::vec![alloc::format!("{{NUMBER:count}} {{TEXT:coin:{}}}", e)], Rc::new(Coin)));
+    let r = calc.execute("en", alloc::format!("3 {}", t));
+    let got = match &r.lines[0] { Some(l) => match &l.result { Ok(x) => match core::ops::Deref::deref(&x.ast) { SmartCalcAstType::Item(it) => it.get_underlying_number(), _ => f64::NAN }, Err(_) => f64::NAN }, None => f64::NAN };
+    let fires = got == 3000.0;
+    assert!(fires == (e.to_lowercase() == t.to_lowercase()));
+}
+#[cfg(kani)]
+pub fn k_replay_text_field() {}
